@@ -34,4 +34,9 @@ CHECKS = {
         "note": "Trusted: TLC; scope 4 IDs x <=3 fractions (store), 5 IDs x 2 shards x <=2 fractions (proxy, sampled); match-all query; totals compared only without cross-shard duplicates; histogram/aggregation equality across fractions is covered by C06's partitions, not across shards.",
         "technique": "TLA+ transcription of the search loop proved equal to a reference by TLC (exhaustive + -simulate), cases replayed on real fractions/stores/proxy",
     },
+    "C17": {
+        "text": "Redeliver.tla models fractions as sets with first-writer-wins delivery, rotation and restart (invariant NothingLost); TLC emits one behaviour per transition of the reduced state graph (exhaustive: every abstract state x every bulk subset / seal / restart) plus random longer histories; each is replayed on a real store, sequentially and with concurrently repeated bulks, and the required observation (ID list, totals, histogram, count aggregation, per-fraction document counts, per-token search, fetch bytes) is compared after every step.",
+        "note": "Trusted: TLC; 3 documents exhaustive / 4 sampled; concurrent repeats are raced, not schedule-controlled; totals/aggregations are only compared while no document sits in two fractions (as the property states).",
+        "technique": "TLA+ state machine, one replayed behaviour per TLC transition (VIEW + ACTION_CONSTRAINT emission) + -simulate histories, state compared after every step",
+    },
 }
